@@ -43,7 +43,10 @@ RULE = ('random call graphs: 1-5 levels, 1-2 callables per level drawn from func
         'entities / classes that share ONE name and have different bodies (function, EE1::, EE2::, A::, B::), invoked in '
         'shuffled order, each twice, and from one OAL caller; every other case adds a callable with a NON-VOID return type '
         'whose executed path has no value return (falls off / bare return / no return statement), invoked with both '
-        'parameter values: it has to deliver nothing (None)')
+        'parameter values: it has to deliver nothing (None); every 5th case adds a derived attribute whose body FAILS while '
+        'its instance is unrelated (division by the number of related instances / attribute of an empty handle): read in '
+        'the failing population (outcome not compared, the reference is not asked), repaired from Python (relate), read '
+        'again (= a fresh evaluation), broken, read, repaired, read')
 EXHAUSTIVE = {'quick': False, 'thorough': False}
 ASSUMPTIONS = ['bodies are type-correct, terminating and error-free under the reference semantics (decided by Spec)',
                'callables do not delete instances; callables used in where clauses and derived attributes do not change the population',
@@ -597,13 +600,66 @@ def add_novalue(rng, callables, entries, pop):
     return entries[:k] + [call(False), call(True), call(False)] + entries[k:]
 
 
+def _skipped_by_spec(e):
+    """a derived-attribute read made in a population in which its body FAILS: the reference semantics is not asked at
+    all (the read has no effect); its outcome is not compared, what follows it is"""
+    return e[0] == 'dattr' and e[-1] == 'fails'
+
+
+def expand_spec(case, canon):
+    """the reference's value list has no entry for the reads it was not asked: insert the placeholder"""
+    if canon and canon[0] == 'ok':
+        vals = list(canon[1])
+        out = []
+        for e in case['entries']:
+            out.append(['ignored'] if _skipped_by_spec(e) else (vals.pop(0) if vals else ['missing']))
+        canon[1] = out
+    return canon
+
+
 def blank_failed(case, canon):
     """the value of an invocation that fails half way is not part of the comparison"""
     if canon and canon[0] == 'ok':
         for k, e in enumerate(case['entries']):
-            if e[0] == 'fn' and len(e) > 3 and e[3] == 'fails' and k < len(canon[1]):
+            if ((e[0] == 'fn' and len(e) > 3 and e[3] == 'fails') or _skipped_by_spec(e)) and k < len(canon[1]):
                 canon[1][k] = ['ignored']
     return canon
+
+
+def add_failing_derived(rng, callables, entries, pop):
+    """a derived attribute whose body FAILS in some populations (division by the number of related instances; an
+    attribute read through the empty result of a `select one`): read in the failing population (the exception is the
+    harness's to handle), the population is repaired from Python (relate), read again - the read has to be a fresh
+    evaluation -, broken again (unrelate), read (fails), repaired, read.  Nothing may be remembered from a failed read."""
+    r = rng
+    link = {bi: ai for bi, ai in pop.get('links', [])}
+    na, nb = len(pop['inst']['A']), len(pop['inst']['B'])
+    free_b = [b for b in range(nb) if b not in link]
+    if not (na and free_b):
+        return entries
+    lvl = max([x['level'] for x in callables] or [0])
+    if r.random() < 0.5:
+        # class A: 100 / (number of related B): fails (division by zero) while no B is related
+        lonely = [a for a in range(na) if a not in link.values()]
+        if not lonely:
+            return entries
+        ai, bi = r.choice(lonely), r.choice(free_b)
+        cls, idx = 'A', ai
+        body = [['select_rel', 'many', 'qbs', ['self'], [['B', 'R1', '']], None],
+                ['setattr', ['self'], 'dq', ['bin', '/', ['int', 100], ['un', 'cardinality', ['var', 'qbs']]]]]
+    else:
+        # class B: the related A's attribute: fails (attribute of an empty handle) while no A is related
+        bi, ai = r.choice(free_b), r.randrange(na)
+        cls, idx = 'B', bi
+        body = [['select_rel', 'one', 'qa', ['self'], [['A', 'R1', '']], None],
+                ['setattr', ['self'], 'dq', ['bin', '+', ['attr', ['var', 'qa'], 'n'], ['int', 1]]]]
+    h = _sig('derived', 'dq', cls, [], 'integer', True)
+    h.update(recursive=False, level=lvl, body=body, text=G.render(body), cost=1, nav=False, fails_when_unrelated=True)
+    callables.append(h)
+    bad, good = ['dattr', cls, idx, 'dq', 'fails'], ['dattr', cls, idx, 'dq']
+    block = [list(bad), ['relate', 'B', bi, 'A', ai], list(good), list(good), ['unrelate', 'B', bi, 'A', ai], list(bad),
+             ['relate', 'A', ai, 'B', bi], list(good), ['unrelate', 'A', ai, 'B', bi]]
+    return block + entries
 
 
 # ----------------------------------------------------------------------------------------------- wire
@@ -698,7 +754,7 @@ def make_case(ident, callables, enums, consts, pop, entries, shuffle_seed):
     import random
     sql = B.model_sql(bp_spec(callables, enums, consts), random.Random(shuffle_seed))
     esec, csec = _rows_in_text_order(sql, enums, consts)
-    line = dumps([Sym('calls'), FUEL, _ctx_sexp(callables), esec, csec, _state_sexp(pop)] + [_entry_sexp(e) for e in entries])
+    line = dumps([Sym('calls'), FUEL, _ctx_sexp(callables), esec, csec, _state_sexp(pop)] + [_entry_sexp(e) for e in entries if not _skipped_by_spec(e)])
     slim = [{k: v for k, v in c.items() if k != 'body'} for c in callables]
     return {'id': ident, 'callables': slim, 'bodies': [c['body'] for c in callables], 'enums': enums, 'consts': consts,
             'pop': pop, 'entries': entries, 'shuffle': shuffle_seed, 'sql': sql, 'line': line, 'expect': None}
@@ -733,7 +789,7 @@ def attach_expectations(ctx, cases):
     for c, a in zip(cases, answers):
         ans = loads(a)
         if isinstance(ans, list) and ans and ans[0] == 'ok':
-            c['expect'] = blank_failed(c, canon_spec(ans))
+            c['expect'] = blank_failed(c, expand_spec(c, canon_spec(ans)))
             yield c
         elif isinstance(ans, list) and ans and ans[0] == 'error':
             ctx.count('dropped_outside_domain')
@@ -872,6 +928,8 @@ def generate(ctx):
             entries = add_samename(r.fork('samename'), callables, entries, pop)
         else:
             entries = add_novalue(r.fork('novalue'), callables, entries, pop)
+        if i % 5 == 3:
+            entries = add_failing_derived(r.fork('faild'), callables, entries, pop)
         if i % 10 == 4 and entries:
             entries = add_boom(r.fork('boom'), callables, entries)
             family = 'boom'
@@ -966,7 +1024,7 @@ def run_impl(case):
             try:
                 values.append(_invoke(domain, insts, e))
             except Exception as ex:
-                if k == 'fn' and len(e) > 3 and e[3] == 'fails':
+                if (k == 'fn' and len(e) > 3 and e[3] == 'fails') or _skipped_by_spec(e):
                     values.append(None)      # the invocation that fails half way: its outcome is not compared
                     continue
                 # an in-domain invocation must not raise: a finding, with the program
@@ -1087,6 +1145,8 @@ def _judge(case, obs, calls, raised):
     stats['family_' + case.get('family', 'graph')] = 1
     if any(c['name'] == 'samecall' for c in case['callables']):
         stats['same_named_callables_of_different_kinds'] = 1
+    if any(c.get('fails_when_unrelated') for c in case['callables']):
+        stats['derived_attribute_read_after_a_failed_read'] = 1
     for c in case['callables']:
         if c.get('novalue'):
             stats['non_void_callable_without_value_return_' + c['novalue']] = 1
@@ -1129,7 +1189,7 @@ def model_line(case):
 
 
 def model_obs(case, ans):
-    return blank_failed(case, canon_spec(ans))
+    return blank_failed(case, expand_spec(case, canon_spec(ans)))
 
 
 def shrink_candidates(case):
